@@ -207,7 +207,18 @@ func (t *T) leanType(ty types.Type) (string, error) {
 		return "", fmt.Errorf("unsupported basic type %s", u)
 	case *types.Pointer:
 		return t.leanType(u.Elem())
+	case *types.Slice:
+		// read-only slices (len, index) as lists
+		et, err := t.leanType(u.Elem())
+		if err != nil {
+			return "", err
+		}
+		return "(List " + et + ")", nil
 	case *types.Named:
+		if b, ok := u.Underlying().(*types.Basic); ok {
+			// named scalar (e.g. `type dcCubeIdx int`): the scalar itself
+			return t.leanType(b)
+		}
 		return t.namedType(u)
 	case *types.Array:
 		if u.Len() > 16 {
@@ -312,7 +323,16 @@ func (t *T) zeroValue(ty types.Type) (string, error) {
 		case types.Int:
 			return "(0 : Int)", nil
 		}
+	case *types.Slice:
+		lt, err := t.leanType(u)
+		if err != nil {
+			return "", err
+		}
+		return "([] : " + lt + ")", nil
 	case *types.Named:
+		if b, ok := u.Underlying().(*types.Basic); ok {
+			return t.zeroValue(b)
+		}
 		lt, err := t.namedType(u)
 		if err != nil {
 			return "", err
@@ -1230,7 +1250,7 @@ func (fx *fnCtx) ifStmt(s *ast.IfStmt, rest func() (string, error)) (string, err
 
 // assign translates one assignment into a `let` line.
 func (fx *fnCtx) assign(a *ast.AssignStmt) (string, error) {
-	binop := map[token.Token]token.Token{token.ADD_ASSIGN: token.ADD, token.SUB_ASSIGN: token.SUB, token.MUL_ASSIGN: token.MUL, token.QUO_ASSIGN: token.QUO}
+	binop := map[token.Token]token.Token{token.ADD_ASSIGN: token.ADD, token.SUB_ASSIGN: token.SUB, token.MUL_ASSIGN: token.MUL, token.QUO_ASSIGN: token.QUO, token.REM_ASSIGN: token.REM}
 	if op, ok := binop[a.Tok]; ok {
 		if len(a.Lhs) != 1 || len(a.Rhs) != 1 {
 			return "", fmt.Errorf("unsupported compound assignment")
@@ -1676,6 +1696,25 @@ func (fx *fnCtx) exprAs(e ast.Expr, want types.Type) (string, error) {
 		}
 		return "", fmt.Errorf("unsupported selector %s", x.Sel.Name)
 	case *ast.IndexExpr:
+		if sl, isSlice := types.Unalias(fx.pi.info.Types[x.X].Type).Underlying().(*types.Slice); isSlice {
+			// read of a slice element; Go panics when out of range, the model yields the zero value
+			if _, err := fx.t.leanType(sl); err != nil {
+				return "", err
+			}
+			z, err := fx.t.zeroValue(sl.Elem())
+			if err != nil {
+				return "", err
+			}
+			a, err := fx.exprAs(x.X, nil)
+			if err != nil {
+				return "", err
+			}
+			ix, err := fx.exprAs(x.Index, types.Typ[types.Int])
+			if err != nil {
+				return "", err
+			}
+			return "(List.getD " + a + " (Int.toNat " + ix + ") " + z + ")", nil
+		}
 		i, ok := fx.constInt(x.Index)
 		if !ok {
 			// variable index into a small fixed array: an if-chain over the positions (Go panics when the
@@ -1759,12 +1798,21 @@ func (fx *fnCtx) binary(x *ast.BinaryExpr, want types.Type) (string, error) {
 		return "", err
 	}
 	switch x.Op {
-	case token.ADD, token.SUB, token.MUL, token.QUO:
+	case token.ADD, token.SUB, token.MUL, token.QUO, token.REM:
 		if !isFloat(opd) {
-			if isInt(opd) && x.Op != token.QUO {
+			if isInt(opd) {
+				switch x.Op {
+				case token.QUO:
+					return "(Int.tdiv " + a + " " + b + ")", nil // Go's integer division truncates toward zero
+				case token.REM:
+					return "(Int.tmod " + a + " " + b + ")", nil
+				}
 				return "(" + a + " " + x.Op.String() + " " + b + ")", nil
 			}
 			return "", fmt.Errorf("arithmetic on %s is outside the subset", opd)
+		}
+		if x.Op == token.REM {
+			return "", fmt.Errorf("%% on floats")
 		}
 		return "(" + a + " " + x.Op.String() + " " + b + ")", nil
 	case token.LSS, token.LEQ, token.GTR, token.GEQ:
@@ -2070,6 +2118,16 @@ func (fx *fnCtx) call(x *ast.CallExpr, want types.Type) (string, error) {
 		if isFloat(tv.Type) && (isFloat(from)) {
 			return fx.exprAs(x.Args[0], tv.Type)
 		}
+		if isInt(tv.Type) && isInt(from) {
+			return fx.exprAs(x.Args[0], nil)
+		}
+		if isFloat(tv.Type) && isInt(from) {
+			a, err := fx.exprAs(x.Args[0], nil)
+			if err != nil {
+				return "", err
+			}
+			return "(HasOfInt.ofInt " + a + ")", nil
+		}
 		if types.Identical(types.Unalias(tv.Type), types.Unalias(from)) {
 			return fx.exprAs(x.Args[0], tv.Type)
 		}
@@ -2126,6 +2184,26 @@ func (fx *fnCtx) call(x *ast.CallExpr, want types.Type) (string, error) {
 		}
 		return "(" + ln + " " + recv + args + ")", nil
 	case *ast.Ident:
+		if b, isBuiltin := fx.pi.info.Uses[f].(*types.Builtin); isBuiltin && b.Name() == "len" && len(x.Args) == 1 {
+			at := types.Unalias(fx.pi.info.Types[x.Args[0]].Type)
+			if p, ok := at.(*types.Pointer); ok {
+				at = types.Unalias(p.Elem())
+			}
+			switch u := at.Underlying().(type) {
+			case *types.Array:
+				return fmt.Sprintf("(%d : Int)", u.Len()), nil
+			case *types.Slice:
+				if _, err := fx.t.leanType(u); err != nil {
+					return "", err
+				}
+				a, err := fx.exprAs(x.Args[0], nil)
+				if err != nil {
+					return "", err
+				}
+				return "(Int.ofNat (List.length " + a + "))", nil
+			}
+			return "", fmt.Errorf("len of %s is outside the subset", at)
+		}
 		callee, ok := fx.pi.info.Uses[f].(*types.Func)
 		if !ok {
 			return "", fmt.Errorf("call of %s is outside the subset (builtin, closure or variable)", f.Name)
@@ -2205,7 +2283,7 @@ func (t *T) Emit(module string, roots []Root) string {
 		}
 		return lits[i] < lits[j]
 	})
-	sb.WriteString("section\nvariable {α : Type} [_root_.Add α] [_root_.Sub α] [_root_.Mul α] [_root_.Div α] [_root_.Neg α] [_root_.LT α] [DecidableLT α] [_root_.LE α] [DecidableLE α]\n  [_root_.OfScientific α] [HasSqrt α] [HasLibm α]")
+	sb.WriteString("section\nvariable {α : Type} [_root_.Add α] [_root_.Sub α] [_root_.Mul α] [_root_.Div α] [_root_.Neg α] [_root_.LT α] [DecidableLT α] [_root_.LE α] [DecidableLE α]\n  [_root_.OfScientific α] [HasSqrt α] [HasLibm α] [HasOfInt α]")
 	for _, l := range lits {
 		sb.WriteString(" [_root_.OfNat α " + l + "]")
 	}
